@@ -2,7 +2,7 @@
     Theorems only: statement, [exact], [Print Assumptions] (statements restated verbatim from the
     Inv_*.v files where they are proved).  See DESIGN.md section 5 for how each renders the property. *)
 From CB Require Import ProofLib Spec MonitorSound Results.
-From CB Require Import Inv_relay_pull Inv_take_pull Inv_from_iter_pull Inv_concat_pull.
+From CB Require Import Inv_relay_pull Inv_take_pull Inv_from_iter_pull Inv_concat_pull Inv_flatten_pull.
 
 (** pull regime: the monitor's VOverPull / VOverData / VUnanswered checks never fire *)
 Theorem C14_map_safe_pull (f : val -> val) p :
@@ -97,3 +97,66 @@ Theorem C14_concat_pull_counts n p :
     (forall j, cc_i (cst c) < j -> owed (ms c) j = 0).
 Proof. exact (@concat_pull_counts n p). Qed.
 Print Assumptions C14_concat_pull_counts.
+
+(** ** flatten (guard [g_flatten]: every emitted inner is a fresh source): exactly one token of demand,
+    with the sink, on the outer, or on the stored inner *)
+
+Theorem C14_flatten_safe_pull p :
+  nsinks p = 1 -> resub p = false -> no_nest p = false ->
+  c14 p = true -> pullable p = true -> one_pull p = true -> late_ok p = false ->
+  forall c : cfg flatten_op, reach p g_flatten c -> viols (ms c) = [] /\ dead c = false.
+Proof. exact (@flatten_safe_pull p). Qed.
+Print Assumptions C14_flatten_safe_pull.
+
+Theorem C14_flatten_pull_counts p :
+  nsinks p = 1 -> resub p = false -> no_nest p = false ->
+  c14 p = true -> pullable p = true -> one_pull p = true -> late_ok p = false ->
+  forall c : cfg flatten_op, reach p g_flatten c ->
+    sk (ms c) 0 = SLive -> us (ms c) 0 = ULive ->
+    credit (ms c) 0 + npull (ms c) 0 = S (ndata (ms c) 0) /\
+    In 0 (ports (ms c)) /\
+    ((fl_inner (cst c) = None /\
+      (forall i, us (ms c) (S i) <> ULive /\ us (ms c) (S i) <> USubd) /\
+      credit (ms c) 0 + owed (ms c) 0 = 1 /\ (forall i, owed (ms c) (S i) = 0))
+     \/
+     (exists k, fl_inner (cst c) = Some (S k) /\ us (ms c) (S k) = ULive /\
+                (forall i, i <> k -> us (ms c) (S i) <> ULive /\ us (ms c) (S i) <> USubd) /\
+                In (S k) (ports (ms c)) /\ owed (ms c) 0 = 0 /\
+                credit (ms c) 0 + owed (ms c) (S k) = 1 /\
+                (forall i, i <> k -> owed (ms c) (S i) = 0))
+     \/
+     (exists k rest, stack c = (FlDone, CSub (S k)) :: rest /\ us (ms c) (S k) = USubd /\
+                     (forall i, us (ms c) (S i) <> ULive) /\
+                     (forall i, i <> k -> us (ms c) (S i) <> USubd) /\
+                     In (S k) (ports (ms c)) /\ credit (ms c) 0 = 0 /\
+                     (forall i, owed (ms c) i = 0))).
+Proof. exact (@flatten_pull_counts p). Qed.
+Print Assumptions C14_flatten_pull_counts.
+
+Theorem C14_flatten_pull_token p :
+  nsinks p = 1 -> resub p = false -> no_nest p = false ->
+  c14 p = true -> pullable p = true -> one_pull p = true -> late_ok p = false ->
+  forall c : cfg flatten_op, reach p g_flatten c ->
+    sk (ms c) 0 = SLive -> us (ms c) 0 = ULive ->
+    credit (ms c) 0 <= 1 /\
+    (forall i, owed (ms c) i <= 1) /\
+    (forall i j, 0 < owed (ms c) i -> 0 < owed (ms c) j -> i = j) /\
+    (forall i, 0 < owed (ms c) i ->
+       us (ms c) i = ULive /\ In i (ports (ms c)) /\ credit (ms c) 0 = 0 /\
+       npull (ms c) 0 = S (ndata (ms c) 0)) /\
+    (0 < credit (ms c) 0 -> npull (ms c) 0 = ndata (ms c) 0 /\ forall i, owed (ms c) i = 0).
+Proof. exact (@flatten_pull_token p). Qed.
+Print Assumptions C14_flatten_pull_token.
+
+Theorem C14_flatten_pull_quiescent p :
+  nsinks p = 1 -> resub p = false -> no_nest p = false ->
+  c14 p = true -> pullable p = true -> one_pull p = true -> late_ok p = false ->
+  forall c : cfg flatten_op, reach p g_flatten c -> stack c = [] -> sk (ms c) 0 = SLive ->
+    us (ms c) 0 = ULive /\
+    ((credit (ms c) 0 = 1 /\ npull (ms c) 0 = ndata (ms c) 0 /\ forall i, owed (ms c) i = 0) \/
+     (credit (ms c) 0 = 0 /\ npull (ms c) 0 = S (ndata (ms c) 0) /\
+      exists i, In i (ports (ms c)) /\ us (ms c) i = ULive /\ owed (ms c) i = 1 /\
+                forall j, j <> i -> owed (ms c) j = 0)).
+Proof. exact (@flatten_pull_quiescent p). Qed.
+Print Assumptions C14_flatten_pull_quiescent.
+
